@@ -36,7 +36,7 @@ EXPECTED_PROBES = ['lanes_in_mode2', 'pair_restore', 'pair_reuse', 'pair_strip',
 
 
 def gen(rng, tier, i):
-    script = cgen.gen_script(rng, max_gates=rng.choice([6, 12, 24, 40 if tier == 'thorough' else 24]), max_in=6, max_ff=3, p_glitchy=rng.choice([0.1, 0.3]))
+    script = cgen.gen_script(rng, max_gates=rng.choice([6, 12, 24, 40 if tier == 'thorough' else 24]), max_in=6, max_ff=3, p_glitchy=rng.choice([0.2, 0.4]))
     if rng.random() < 0.03: script = {'net': 'b01', 'ffs': [1], 'style': 'b'}
     sims = rng.randint(1, 6)
     n_sets = rng.choice([1, 1, 2, 3])
@@ -83,7 +83,7 @@ def gen(rng, tier, i):
     lsims = rng.choice([1, 3, 8, 9, 13, 16, 20, 33, 300])
     n2 = rng.choice([lsims, lsims + 1, lsims + 8, 24, 40, 64, 65, 257])
     perm = list(range(n2)); rng.shuffle(perm)
-    case['logic'] = {'m': rng.choice([2, 4, 8]), 'sims': lsims, 'vals': [rng.randrange(8) for _ in range(rng.randint(3, 23))],
+    case['logic'] = {'m': rng.choice([2, 4, 8]), 'sims': lsims, 'vals': [rng.choice([0, 0, 2, 2, 3, 1, rng.randrange(8)]) for _ in range(rng.randint(3, 23))],
                      'sims2': n2, 'lane_map': [perm[l] if l < n2 else None for l in range(lsims)], 'cycles': rng.choice([1, 1, 2, 3])}
     return case
 
@@ -284,6 +284,21 @@ def logic_pairs(built, lc, res):
             if not np.array_equal(a, b):
                 d = np.argwhere(a != b)[0]
                 res.violate('logic-option-changes-result', f'LogicSim m={m} {label}: cycle {cy} s[1] slot {d[0]} lane {d[1]}: {a[d[0], d[1]]} vs {b[d[0], d[1]]}')
+                return
+    # the other lanes carry something else: lane 0 must not notice
+    if sims > 1:
+        mvb = lsim.mv_stimulus(s_len, sims, m, lc['vals'][::-1] + [lc['vals'][0]])
+        mvb[:, 0] = mva[:, 0]
+        ob = run(sims, mvb, False, False)
+        for cy, (a, b) in enumerate(zip(ref, ob)):
+            if not np.array_equal(a[:, 0], b[:, 0]):
+                res.violate('logic-lane-position-changes-result', f'LogicSim m={m}: cycle {cy}: results of lane 0 change when only the OTHER lanes get different stimuli: {a[:, 0].tolist()} vs {b[:, 0].tolist()}')
+                return
+        # ... and lane 0 simulated all by itself (one simulation allocated)
+        oa = run(1, mva[:, :1].copy(), False, False)
+        for cy, (a, b) in enumerate(zip(ref, oa)):
+            if not np.array_equal(a[:, 0], b[:, 0]):
+                res.violate('logic-lane-position-changes-result', f'LogicSim m={m}: cycle {cy}: lane 0 of {sims} gives {a[:, 0].tolist()}, the same stimulus simulated alone gives {b[:, 0].tolist()}')
                 return
     # lane count / lane position (fault-free differential)
     n2 = int(lc['sims2'])
